@@ -28,7 +28,7 @@ Section Proofs.
   Variables md rmax dflt : N.
 
   Notation bfeed := (bfeed decode ports_of).
-  Notation reenter := (reenter decode ports_of).
+  Notation reenter := (reenter decode).
   Notation bstep := (bstep decode ports_of).
   Notation brun := (brun decode ports_of).
   Notation stream_q := (stream_q decode ports_of).
@@ -49,7 +49,7 @@ Section Proofs.
   Definition Bnd (s : bstate) : Prop :=
     common s /\
     match bm s with
-    | BStream total acc => rcving (br s) = RChunks [] false /\ decode acc = DIncomplete
+    | BStream _ _ | BDrain _ => rcving (br s) = RChunks [] false
     | _ => True
     end.
   Definition Skip (s : bstate) : Prop := common s /\ bm s = BIdle.
@@ -183,6 +183,32 @@ Section Proofs.
       destruct (len acc + len c <=? md); try destruct last; try reflexivity.
   Qed.
 
+  Lemma handle_any_first r last c :
+    max_data r = md ->
+    handle_any r (FData true last c) =
+    if 0 + len c <=? md
+    then if last then (set_rcving r RNothing, Some (OData c))
+         else (set_rcving r (RData [c] (0 + len c)), None)
+    else (set_rcving r (RChunks [c] last), Some OChunks).
+  Proof.
+    intros Hr. unfold handle_any. cbn [app concat]. rewrite Hr, app_nil_r. reflexivity.
+  Qed.
+
+  (** a stream cancelled by the first frame of the next message: that message is looked at next *)
+  Lemma on_cancel_first s last c :
+    common s ->
+    Base.on_cancel decode ports_of s (set_restarted (set_rcving (br s) RNothing) (Some (c, last))) =
+    buf_result s BIdle [] [] last c.
+  Proof.
+    intros Hc. pose proof Hc as (Hfin & Hres & Hd & Hmp & Hbm & Hmd).
+    unfold Base.on_cancel, buf_result. bprj. cbn [app]. change (len (@nil N)) with 0.
+    assert (Heq : forall x, set_rcving (set_restarted (set_restarted (set_rcving (br s) RNothing) (Some (c, last))) None) x
+                            = set_rcving (br s) x).
+    { intros x. unfold set_rcving, set_restarted. bprj. now rewrite Hres. }
+    rewrite handle_any_first by (bprj; exact Hmd).
+    destruct (0 + len c <=? md); try destruct last; rewrite ?Heq; try reflexivity.
+  Qed.
+
   (** the first frame of a data message resets whatever was in progress *)
   Lemma first_feed s last c :
     Bnd s ->
@@ -190,24 +216,14 @@ Section Proofs.
     buf_result s (match bm s with BPorts b' ex => BPorts b' ex | _ => BIdle end) [] [] last c.
   Proof.
     intros [Hc Hb]. pose proof Hc as (Hfin & Hres & Hd & Hmp & Hbm & Hmd).
-    unfold Base.bfeed, buf_result. rewrite Hfin. cbn [app]. change (len (@nil N)) with 0.
-    assert (Hany : forall r, max_data r = md ->
-                   handle_any r (FData true last c) =
-                   if 0 + len c <=? md
-                   then if last then (set_rcving r RNothing, Some (OData (concat [c])))
-                        else (set_rcving r (RData [c] (0 + len c)), None)
-                   else (set_rcving r (RChunks [c] last), Some OChunks)).
-    { intros r Hr. unfold handle_any. cbn [app]. rewrite Hr. reflexivity. }
-    cbn [concat] in Hany. rewrite app_nil_r in Hany.
-    destruct (bm s) as [|total acc|b' ex] eqn:Em.
-    - rewrite (Hany _ Hmd). destruct (0 + len c <=? md); try destruct last; reflexivity.
-    - destruct Hb as [Hr Hdec]. unfold handle_chunk. rewrite Hr. bprj.
-      assert (Heq : forall x, set_rcving (set_restarted (set_restarted (set_rcving (br s) RNothing) (Some (c, last))) None) x
-                              = set_rcving (br s) x).
-      { intros x. unfold set_rcving, set_restarted. bprj. now rewrite Hres. }
-      rewrite Hany by (bprj; exact Hmd).
-      destruct (0 + len c <=? md); try destruct last; rewrite ?Heq; try reflexivity.
-    - rewrite (Hany _ Hmd). destruct (0 + len c <=? md); try destruct last; reflexivity.
+    unfold Base.bfeed. rewrite Hfin.
+    destruct (bm s) as [|total acc|acc|b' ex] eqn:Em.
+    - unfold buf_result. cbn [app]. change (len (@nil N)) with 0. rewrite (handle_any_first _ last c Hmd).
+      destruct (0 + len c <=? md); try destruct last; reflexivity.
+    - unfold handle_chunk. rewrite Hb. now apply on_cancel_first.
+    - unfold handle_chunk. rewrite Hb. now apply on_cancel_first.
+    - unfold buf_result. cbn [app]. change (len (@nil N)) with 0. rewrite (handle_any_first _ last c Hmd).
+      destruct (0 + len c <=? md); try destruct last; reflexivity.
   Qed.
 
   Lemma str_feed s total acc last c :
@@ -226,6 +242,16 @@ Section Proofs.
     assert (Hany : handle_any (br s) (FData false last c) = (set_rcving (br s) RNothing, None)).
     { unfold handle_any. destruct (rcving (br s)); try reflexivity. destruct Hn. }
     destruct Hm as [Hm|(b' & ex & Hm)]; rewrite Hm, Hany; reflexivity.
+  Qed.
+
+  Lemma drain_feed s acc (last : bool) c :
+    common s -> bm s = BDrain acc -> rcving (br s) = RChunks [] false ->
+    bfeed s (FData false last c) =
+    if last then decode_done s (set_rcving (set_rcving (br s) (RChunks [] true)) RNothing) acc
+    else (set_mode s (BDrain acc) (set_rcving (br s) (RChunks [] false)), []).
+  Proof.
+    intros Hc Hm Hr. pose proof Hc as (Hfin & _). unfold Base.bfeed. rewrite Hfin, Hm.
+    unfold handle_chunk. rewrite Hr. bprj. destruct last; reflexivity.
   Qed.
 
   (** the deserializer's verdict on a message streamed to its end *)
@@ -257,13 +283,13 @@ Section Proofs.
       common s /\ bm s = BStream (len acc) acc /\ rcving (br s) = RChunks [] false /\ md < len acc /\ len acc <= rmax.
     Definition MAbort (s : bstate) (acc : list N) : Prop :=
       Skip s /\ nodata (rcving (br s)) /\ md < len acc /\ rmax < len acc.
-    (** the deserializer returned before the end of the message and a repeated [recv] took its result *)
-    Definition MEarly (s : bstate) (acc : list N) (o : list bres) : Prop :=
-      acc = b /\ decode b <> DIncomplete /\ Fin s b o /\ nodata (rcving (br s)).
+    (** the deserializer has ended before the end of the message: the feed loop skips to the end *)
+    Definition MDrain (s : bstate) (acc : list N) : Prop :=
+      acc = b /\ common s /\ bm s = BDrain b /\ rcving (br s) = RChunks [] false /\ md < len b /\ len b <= rmax.
 
     (** state while the message is being received: [acc] arrived so far, [o] emitted so far *)
     Definition Mid (s : bstate) (acc : list N) (o : list bres) : Prop :=
-      (MBuf s acc /\ o = []) \/ (MStr s acc /\ o = []) \/ (MAbort s acc /\ o = [RErrSize]) \/ MEarly s acc o.
+      (MBuf s acc /\ o = []) \/ (MStr s acc /\ o = []) \/ (MAbort s acc /\ o = [RErrSize]) \/ (MDrain s acc /\ o = []).
 
     (** the streamed part of a message that goes on *)
     Lemma stream_more s x total acc q :
@@ -319,27 +345,21 @@ Section Proofs.
       let '(s', o') := reenter s in Mid s' acc (o ++ o').
     Proof.
       intros H Hb. unfold Base.reenter.
-      destruct H as [[(Hc & Hm & Hr & Hl) ->]|[[(Hc & Hm & Hr & Hl1 & Hl2) ->]|[[([Hc Hm] & Hn & Hl1 & Hl2) ->]|(-> & Hd & Hf & Hn)]]].
+      destruct H as [[(Hc & Hm & Hr & Hl) ->]|[[(Hc & Hm & Hr & Hl1 & Hl2) ->]|[[([Hc Hm] & Hn & Hl1 & Hl2) ->]|[(-> & Hc & Hm & Hr & Hl1 & Hl2) ->]]]].
       - assert (Hm' := Hm). destruct Hm as [Hm|(b' & ex & Hm)]; rewrite Hm; left; (split; [|reflexivity]);
           exact (conj Hc (conj Hm' (conj Hr Hl))).
-      - rewrite Hm. destruct (decode acc) eqn:Ed.
-        + (* a complete value: acc = b *)
-          assert (rest = []) as -> by (destruct rest; auto; rewrite (Hpre acc (n :: rest)) in Ed; congruence).
-          rewrite app_nil_r in Hb. subst acc.
-          pose proof (have_item_fin s (br s) b) as Hh.
-          assert (Hc' : common (set_mode s BIdle (br s))) by (apply common_set; auto).
-          specialize (Hh Hc' Hl2 Ed). destruct (have_item s (br s) b) as [s' o']. destruct Hh as [Hf Hrc].
-          right. right. right. cbn [app]. split; [reflexivity|]. split; [congruence|]. split; [exact Hf|].
-          rewrite Hrc, Hr. exact I.
-        + assert (rest = []) as -> by (destruct rest; auto; rewrite (Hpre acc (n :: rest)) in Ed; congruence).
-          rewrite app_nil_r in Hb. subst acc.
-          right. right. right. cbn [app]. split; [reflexivity|]. split; [congruence|]. split.
-          * apply Fin_deser; auto; [congruence|]. apply Skip_intro; [apply common_set; auto|reflexivity].
-          * bprj. rewrite Hr. exact I.
-        + right. left. split; [|reflexivity]. exact (conj Hc (conj Hm (conj Hr (conj Hl1 Hl2)))).
+      - rewrite Hm.
+        assert (Hdone : decode acc <> DIncomplete ->
+                        Mid (set_mode s (BDrain acc) (br s)) acc ([] ++ [])).
+        { intros Hd. assert (rest = []) as ->.
+          { destruct rest as [|n rest]; auto. exfalso. apply Hd. apply (Hpre acc (n :: rest)); auto. discriminate. }
+          rewrite app_nil_r in Hb. subst acc. right. right. right. split; [|reflexivity].
+          split; [reflexivity|]. split; [apply common_set; auto|]. repeat split; auto. }
+        destruct (decode acc) eqn:Ed; try (apply Hdone; congruence).
+        right. left. split; [|reflexivity]. exact (conj Hc (conj Hm (conj Hr (conj Hl1 Hl2)))).
       - rewrite Hm. right. right. left. split; [|reflexivity]. exact (conj (conj Hc Hm) (conj Hn (conj Hl1 Hl2))).
-      - destruct (Fin_mode _ _ _ Hf) as [Hc [Hm|Hm]]; rewrite Hm, app_nil_r; right; right; right;
-          exact (conj eq_refl (conj Hd (conj Hf Hn))).
+      - rewrite Hm. right. right. right. split; [|reflexivity].
+        exact (conj eq_refl (conj Hc (conj Hm (conj Hr (conj Hl1 Hl2))))).
     Qed.
 
     (** a frame that is not the last of the message *)
@@ -348,7 +368,7 @@ Section Proofs.
       let '(s', o') := bfeed s (FData false false c) in Mid s' (acc ++ c) (o ++ o').
     Proof.
       intros H Hb.
-      destruct H as [[(Hc & Hm & (bufs & Hr & Hbufs) & Hl) ->]|[[(Hc & Hm & Hr & Hl1 & Hl2) ->]|[[([Hc Hm] & Hn & Hl1 & Hl2) ->]|(-> & Hd & Hf & Hn)]]].
+      destruct H as [[(Hc & Hm & (bufs & Hr & Hbufs) & Hl) ->]|[[(Hc & Hm & Hr & Hl1 & Hl2) ->]|[[([Hc Hm] & Hn & Hl1 & Hl2) ->]|[(-> & Hc & Hm & Hr & Hl1 & Hl2) ->]]]].
       - rewrite (buf_feed s bufs acc false c Hc Hm Hr Hbufs). cbn [app]. now apply buf_result_mid.
       - rewrite (str_feed s (len acc) acc false c Hc Hm Hr). cbn [app].
         pose proof (stream_more s (RChunks [] false) (len acc) acc [c] Hc eq_refl Hl2) as H.
@@ -358,14 +378,12 @@ Section Proofs.
         rewrite Hm. right. right. left. split; [|reflexivity].
         split; [apply Skip_intro; [now apply common_set_rcving|reflexivity]|].
         split; [bprj; exact I|]. rewrite len_app. lia.
-      - (* already taken: only empty chunks can follow, and they are ignored *)
+      - (* the deserializer has ended: the chunks are dropped *)
         assert (Hce : c ++ rest = []).
         { apply (app_inv_head b). now rewrite app_nil_r. }
         apply app_eq_nil in Hce. destruct Hce as [-> ->]. rewrite !app_nil_r.
-        destruct (Fin_mode _ _ _ Hf) as [Hc Hm].
-        assert (Hil : idle_like (bm s)) by (destruct Hm as [Hm|Hm]; rewrite Hm; unfold idle_like; eauto).
-        rewrite (ign_feed s false [] Hc Hil Hn). rewrite app_nil_r.
-        right. right. right. split; [reflexivity|]. split; [exact Hd|]. split; [now apply Fin_set_rcving|bprj; exact I].
+        rewrite (drain_feed s b false [] Hc Hm Hr). right. right. right. split; [|reflexivity].
+        split; [reflexivity|]. split; [now apply common_set_rcving|]. repeat split; auto.
     Qed.
 
     (** the last frame of a complete message *)
@@ -374,7 +392,7 @@ Section Proofs.
       let '(s', o') := bfeed s (FData false true c) in Fin s' b (o ++ o').
     Proof.
       intros H Hb.
-      destruct H as [[(Hc & Hm & (bufs & Hr & Hbufs) & Hl) ->]|[[(Hc & Hm & Hr & Hl1 & Hl2) ->]|[[([Hc Hm] & Hn & Hl1 & Hl2) ->]|(-> & Hd & Hf & Hn)]]].
+      destruct H as [[(Hc & Hm & (bufs & Hr & Hbufs) & Hl) ->]|[[(Hc & Hm & Hr & Hl1 & Hl2) ->]|[[([Hc Hm] & Hn & Hl1 & Hl2) ->]|[(-> & Hc & Hm & Hr & Hl1 & Hl2) ->]]]].
       - rewrite (buf_feed s bufs acc true c Hc Hm Hr Hbufs). cbn [app]. rewrite <- Hb. now apply buf_result_last.
       - rewrite (str_feed s (len acc) acc true c Hc Hm Hr). cbn [app].
         pose proof (stream_last s (RChunks [] true) acc [c] Hc Hl2) as H.
@@ -383,20 +401,21 @@ Section Proofs.
         rewrite (ign_feed s true c Hc Hil Hn).
         rewrite Hm. cbn [app]. apply Fin_size; [rewrite <- Hb, len_app; lia|].
         apply Skip_intro; [now apply common_set_rcving|reflexivity].
-      - assert (c = []) as ->.
-        { apply (app_inv_head b). now rewrite app_nil_r. }
-        destruct (Fin_mode _ _ _ Hf) as [Hc Hm].
-        assert (Hil : idle_like (bm s)) by (destruct Hm as [Hm|Hm]; rewrite Hm; unfold idle_like; eauto).
-        rewrite (ign_feed s true [] Hc Hil Hn).
-        rewrite app_nil_r. now apply Fin_set_rcving.
+      - rewrite (drain_feed s b true c Hc Hm Hr). cbn [app].
+        pose proof (decode_done_fin s (set_rcving (set_rcving (br s) (RChunks [] true)) RNothing) b) as H.
+        destruct (decode_done s (set_rcving (set_rcving (br s) (RChunks [] true)) RNothing) b) as [s' o'].
+        apply H; [apply common_set; auto|exact Hl2].
     Qed.
 
     Lemma reenter_idle s : idle_like (bm s) -> reenter s = (s, []).
     Proof. intros [Hm|(b' & ex & Hm)]; unfold Base.reenter; now rewrite Hm. Qed.
 
-    Lemma reenter_bnd s : Bnd s -> reenter s = (s, []).
+    Lemma reenter_bnd s : Bnd s -> exists s', reenter s = (s', []) /\ Bnd s'.
     Proof.
-      intros [Hc Hb]. unfold Base.reenter. destruct (bm s); auto. destruct Hb as [_ Hd]. now rewrite Hd.
+      intros [Hc Hb]. unfold Base.reenter. destruct (bm s) as [|total acc|acc|b' ex] eqn:Em;
+        try (exists s; split; [reflexivity|split; [exact Hc|now rewrite Em]]).
+      destruct (decode acc); try (exists s; split; [reflexivity|split; [exact Hc|now rewrite Em]]);
+        (eexists; split; [reflexivity|split; [apply common_set; auto|exact Hb]]).
     Qed.
 
     Lemma brun_app s a1 a2 :
@@ -428,6 +447,15 @@ Section Proofs.
     Proof.
       intros HP. induction acts as [|a acts IH]; intros s Hf Hs; cbn [Base.brun]; auto.
       destruct a as [g|]; [discriminate|]. cbn [Base.bstep]. rewrite (HP s Hs). rewrite (IH s Hf Hs). reflexivity.
+    Qed.
+
+    Lemma brun_reenters_gen (P : bstate -> Prop) :
+      (forall s, P s -> exists s', reenter s = (s', []) /\ P s') ->
+      forall acts s, frames_of acts = [] -> P s -> exists s', brun s acts = (s', []) /\ P s'.
+    Proof.
+      intros HP. induction acts as [|a acts IH]; intros s Hf Hs; cbn [Base.brun]; [eauto|].
+      destruct a as [g|]; [discriminate|]. cbn [Base.bstep]. destruct (HP s Hs) as (s1 & -> & Hs1).
+      destruct (IH s1 Hf Hs1) as (s2 & -> & Hs2). eauto.
     Qed.
 
     Lemma Fin_idle s o : Fin s b o -> idle_like (bm s).
@@ -493,7 +521,8 @@ Section Proofs.
     Proof.
       intros Hbnd Hne Hb Hf. destruct cs as [|c cs]; [congruence|]. rewrite data_frames_cons in Hf. cbn [andb] in Hf.
       destruct (frames_of_cons_inv _ _ _ Hf) as (pre & post & -> & Hpre0 & Hpost).
-      rewrite brun_app. rewrite (brun_reenters Bnd reenter_bnd pre s Hpre0 Hbnd). cbn [Base.brun Base.bstep].
+      rewrite brun_app. destruct (brun_reenters_gen Bnd reenter_bnd pre s Hpre0 Hbnd) as (sp & Hrun & Hbndp). rewrite Hrun.
+      clear Hrun Hbnd. revert sp Hbndp. clear s. intros s Hbnd. cbn [Base.brun Base.bstep].
       rewrite (first_feed s _ c Hbnd). destruct Hbnd as [Hc Hb'].
       assert (Hil : idle_like (match bm s with BPorts b' ex => BPorts b' ex | _ => BIdle end)).
       { destruct (bm s); unfold idle_like; eauto. }
@@ -513,10 +542,10 @@ Section Proofs.
 
     (** an unfinished data message *)
     Lemma mid_cut_end s o :
-      decode b = DIncomplete -> Mid s b o ->
+      Mid s b o ->
       Bnd s /\ o = if (md <? len b) && (rmax <? len b) then [RErrSize] else [].
     Proof.
-      intros Hd [[(Hc & Hm & Hr & Hl) ->]|[[(Hc & Hm & Hr & Hl1 & Hl2) ->]|[[(Hs & Hn & Hl1 & Hl2) ->]|(_ & Hd' & _)]]].
+      intros [[(Hc & Hm & Hr & Hl) ->]|[[(Hc & Hm & Hr & Hl1 & Hl2) ->]|[[(Hs & Hn & Hl1 & Hl2) ->]|[(_ & Hc & Hm & Hr & Hl1 & Hl2) ->]]]].
       - split.
         + split; auto. destruct Hm as [Hm|(b' & ex & Hm)]; now rewrite Hm.
         + apply N.ltb_ge in Hl. now rewrite Hl.
@@ -524,21 +553,24 @@ Section Proofs.
         + split; auto. rewrite Hm. auto.
         + apply N.ltb_ge in Hl2. now rewrite Hl2, andb_false_r.
       - split; [now apply Skip_Bnd|]. apply N.ltb_lt in Hl1, Hl2. now rewrite Hl1, Hl2.
-      - congruence.
+      - split.
+        + split; auto. rewrite Hm. auto.
+        + apply N.ltb_ge in Hl2. now rewrite Hl2, andb_false_r.
     Qed.
 
     Lemma msg_cut s acts cs :
-      decode b = DIncomplete -> Bnd s -> concat cs = b -> frames_of acts = data_frames true false cs ->
+      Bnd s -> concat cs = b -> frames_of acts = data_frames true false cs ->
       let '(s', o) := brun s acts in
       Bnd s' /\ o = if (md <? len b) && (rmax <? len b) then [RErrSize] else [].
     Proof.
-      intros Hd Hbnd Hb Hf. destruct cs as [|c cs].
-      - cbn in Hf. rewrite (brun_reenters Bnd reenter_bnd acts s Hf Hbnd). split; auto.
+      intros Hbnd Hb Hf. destruct cs as [|c cs].
+      - cbn in Hf. destruct (brun_reenters_gen Bnd reenter_bnd acts s Hf Hbnd) as (sp & -> & Hbndp). split; auto.
         cbn [concat] in Hb. subst b. change (len (@nil N)) with 0.
         assert (H : (md <? 0) = false) by (apply N.ltb_ge; lia). now rewrite H.
       - rewrite data_frames_cons in Hf. cbn [andb] in Hf.
         destruct (frames_of_cons_inv _ _ _ Hf) as (pre & post & -> & Hpre0 & Hpost).
-        rewrite brun_app. rewrite (brun_reenters Bnd reenter_bnd pre s Hpre0 Hbnd). cbn [Base.brun Base.bstep].
+        rewrite brun_app. destruct (brun_reenters_gen Bnd reenter_bnd pre s Hpre0 Hbnd) as (sp & Hrun & Hbndp). rewrite Hrun.
+        clear Hrun Hbnd. revert sp Hbndp. clear s. intros s Hbnd. cbn [Base.brun Base.bstep].
         rewrite (first_feed s _ c Hbnd). destruct Hbnd as [Hc Hb'].
         assert (Hil : idle_like (match bm s with BPorts b' ex => BPorts b' ex | _ => BIdle end)).
         { destruct (bm s); unfold idle_like; eauto. }
@@ -695,12 +727,11 @@ Section Proofs.
 
   (** ** one send, then all of them *)
 
-  (** an honest sender using a self-delimiting codec: no proper prefix of an encoding is an encoding;
-      outside the known class: an unfinished message does not carry a complete encoding *)
+  (** an honest sender using a self-delimiting codec: no proper prefix of an encoding is an encoding *)
   Definition twf (t : itrace) : Prop :=
     match t with
     | TNothing => True
-    | TCut p => forall q r, q ++ r = p -> decode q = DIncomplete
+    | TCut p => forall q r, q ++ r = p -> r <> [] -> decode q = DIncomplete
     | TDone b => (forall q r, q ++ r = b -> r <> [] -> decode q = DIncomplete) /\ len (ports_of b) <= dflt
     | TPortsCut b ps =>
         (forall q r, q ++ r = b -> r <> [] -> decode q = DIncomplete) /\ ports_of b <> [] /\ len ps <= dflt
@@ -742,11 +773,11 @@ Section Proofs.
     let '(s', o) := brun s acts in Bnd s' /\ o = tspec decode md rmax t.
   Proof.
     intros Hwf Hbnd Hfr. destruct t as [|p|b|b ps]; cbn [trace_atts] in Hfr.
-    - inversion Hfr as [Hnil|]. rewrite (brun_reenters Bnd reenter_bnd acts s (eq_sym H) Hbnd). auto.
+    - inversion Hfr as [Hnil|]. destruct (brun_reenters_gen Bnd reenter_bnd acts s (eq_sym H) Hbnd) as (sp & -> & Hbndp). auto.
     - inversion Hfr as [|a r fa fr Ha Hr Heq]; subst. cbn [framed1] in Ha. destruct Ha as (cs & Hcs & ->).
       inversion Hr; subst. rewrite app_nil_r in *.
       cbn [twf] in Hwf.
-      apply (msg_cut (concat cs) (fun q r H _ => Hwf q r H) s acts cs (Hwf (concat cs) [] (app_nil_r _)) Hbnd eq_refl (eq_sym H0)).
+      apply (msg_cut (concat cs) Hwf s acts cs Hbnd eq_refl (eq_sym H0)).
     - destruct Hwf as [Hpre Hlp]. destruct (ports_of b) as [|p0 ps0] eqn:Ep.
       + inversion Hfr as [|a r fa fr Ha Hr Heq]; subst. cbn [framed1] in Ha. destruct Ha as (cs & Hne & Hcs & ->).
         inversion Hr; subst. rewrite app_nil_r in *.
@@ -812,7 +843,7 @@ Section Proofs.
     let '(s', o) := brun s acts in Bnd s' /\ o = flat_map (tspec decode md rmax) traces.
   Proof.
     induction traces as [|t traces IH]; intros s acts Hwf Hbnd Hfr; cbn [flat_map] in *.
-    - inversion Hfr as [Hnil|]. rewrite (brun_reenters Bnd reenter_bnd acts s (eq_sym H) Hbnd). auto.
+    - inversion Hfr as [Hnil|]. destruct (brun_reenters_gen Bnd reenter_bnd acts s (eq_sym H) Hbnd) as (sp & -> & Hbndp). auto.
     - inversion Hwf as [|t' l' Ht Hts]; subst.
       destruct (Framed_app_inv _ _ _ Hfr) as (f1 & f2 & Hfs & H1 & H2).
       destruct (frames_of_split _ _ _ Hfs) as (a1 & a2 & -> & Hf1 & Hf2).
@@ -880,22 +911,19 @@ Section Proofs.
   Lemma base_send_trace c bd bu it :
     honest it ->
     let '(_, _, atts, res) := base_send c bd bu it in
-    cut_complete decode atts = false ->
     twf (atts_trace atts) /\
     (forall fs, Framed atts fs -> Framed (trace_atts ports_of (atts_trace atts)) fs) /\
     (res = SOk -> atts_trace atts = TDone (ibytes it)) /\
     (res <> SOk -> match atts_trace atts with TDone _ => False | _ => True end).
   Proof.
     intros (Hpre & Hports & Hlp). pose proof (base_send_shape c bd bu it) as Hs.
-    destruct (base_send c bd bu it) as [[[bd' bu'] atts] res]. intros Hk.
+    destruct (base_send c bd bu it) as [[[bd' bu'] atts] res].
     destruct Hs as [[-> Hr]|[(k & -> & Hr)|(st & bu2 & -> & ->)]].
     - cbn [atts_trace twf trace_atts]. repeat split; auto; congruence.
     - cbn [atts_trace twf trace_atts]. split; [|repeat split; auto; congruence].
-      cbn [cut_complete existsb] in Hk. rewrite orb_false_r in Hk.
-      intros q r Hq. destruct r as [|x r].
-      + rewrite app_nil_r in Hq. subst q. destruct (decode (firstn k (ibytes it))); congruence.
-      + apply (Hpre q ((x :: r) ++ skipn k (ibytes it))); [|discriminate].
-        rewrite app_assoc, Hq. apply firstn_skipn.
+      intros q r Hq Hr0. destruct r as [|x r]; [congruence|].
+      apply (Hpre q ((x :: r) ++ skipn k (ibytes it))); [|discriminate].
+      rewrite app_assoc, Hq. apply firstn_skipn.
     - pose proof (send_ports_shape bu2 (iports it)) as Hp.
       destruct (send_ports bu2 (iports it)) as [[bu3 ps] r]. cbn [fst snd] in *.
       destruct Hp as [(Hnil & -> & ->)|[(Hne & -> & ->)|(Hne & k & -> & ->)]].
@@ -925,9 +953,6 @@ Section Proofs.
   (** the values whose send returned [Ok] *)
   Definition sent_ok (l : list (item * list catt * sres)) : list (list N) :=
     flat_map (fun x => match s_res x with SOk => [ibytes (s_item x)] | _ => [] end) l.
-
-  Definition outside_known_class (l : list (item * list catt * sres)) : Prop :=
-    Forall (fun x => cut_complete decode (s_atts x) = false) l.
 
   Lemma Framed_app l1 : forall f1 l2 f2, Framed l1 f1 -> Framed l2 f2 -> Framed (l1 ++ l2) (f1 ++ f2).
   Proof.
@@ -961,22 +986,15 @@ Section Proofs.
 
   Theorem base_end_to_end c its bd acts :
     Forall honest (map fst its) ->
-    outside_known_class (send_all c bd its) ->
     Framed (flat_map s_atts (send_all c bd its)) (frames_of acts) ->
     snd (brun (binit md dflt rmax) acts) = flat_map sent_spec (send_all c bd its).
   Proof.
-    intros Hh Hk Hfr.
-    pose proof (send_all_forall
-      (fun x => cut_complete decode (s_atts x) = false ->
-                twf (atts_trace (s_atts x)) /\
-                (forall fs, Framed (s_atts x) fs -> Framed (trace_atts ports_of (atts_trace (s_atts x))) fs)) c) as H.
+    intros Hh Hfr.
     assert (Hall : Forall (fun x => twf (atts_trace (s_atts x)) /\
                    (forall fs, Framed (s_atts x) fs -> Framed (trace_atts ports_of (atts_trace (s_atts x))) fs))
                    (send_all c bd its)).
-    { specialize (H ltac:(intros bd0 bu it Hit; pose proof (base_send_trace c bd0 bu it Hit) as Ht;
-                          destruct (base_send c bd0 bu it) as [[[? ?] atts] res]; intros Hc; destruct (Ht Hc) as (A & B & _); auto)
-                    its bd Hh).
-      unfold outside_known_class in Hk. rewrite Forall_forall in *. intros x Hx. apply (H x Hx). apply (Hk x Hx). }
+    { apply send_all_forall; auto. intros bd0 bu it Hit. pose proof (base_send_trace c bd0 bu it Hit) as Ht.
+      destruct (base_send c bd0 bu it) as [[[? ?] atts] res]. destruct Ht as (A & B & _). auto. }
     pose proof (base_recv_spec (map (fun x => atts_trace (s_atts x)) (send_all c bd its)) (binit md dflt rmax) acts) as Hspec.
     rewrite !flat_map_map in Hspec.
     assert (H1 : Forall twf (map (fun x => atts_trace (s_atts x)) (send_all c bd its))).
@@ -990,14 +1008,13 @@ Section Proofs.
   Lemma sent_spec_cases c bd bu it :
     honest it ->
     let '(_, _, atts, res) := base_send c bd bu it in
-    cut_complete decode atts = false ->
     let o := sent_spec (it, atts, res) in
     (res = SOk -> o = if rmax <? len (ibytes it) then [RErrSize] else deliver (ibytes it)) /\
     (res <> SOk -> o = [] \/ o = [RErrSize] \/ o = [RErrDeser]).
   Proof.
     intros Hit. pose proof (base_send_trace c bd bu it Hit) as Ht.
-    destruct (base_send c bd bu it) as [[[bd' bu'] atts] res]. intros Hk.
-    destruct (Ht Hk) as (_ & _ & Hok & Hfail). unfold sent_spec, s_atts. cbn [fst snd]. split.
+    destruct (base_send c bd bu it) as [[[bd' bu'] atts] res].
+    destruct Ht as (_ & _ & Hok & Hfail). unfold sent_spec, s_atts. cbn [fst snd]. split.
     - intros Hr. rewrite (Hok Hr). reflexivity.
     - intros Hr. specialize (Hfail Hr). destruct (atts_trace atts) as [|p|b|b ps]; cbn [tspec]; auto.
       + destruct ((md <? len p) && (rmax <? len p)); auto.
@@ -1010,17 +1027,16 @@ Section Proofs.
 
   (** the successful results are exactly the successfully sent values the receiver can accept *)
   Theorem base_success c its bd :
-    Forall honest (map fst its) -> outside_known_class (send_all c bd its) ->
+    Forall honest (map fst its) ->
     oks (flat_map sent_spec (send_all c bd its)) =
     filter (acceptable decode rmax) (sent_ok (send_all c bd its)).
   Proof.
-    intros Hh Hk.
+    intros Hh.
     pose proof (send_all_forall
-      (fun x => cut_complete decode (s_atts x) = false ->
-                oks (sent_spec x) = filter (acceptable decode rmax)
+      (fun x => oks (sent_spec x) = filter (acceptable decode rmax)
                                       (match s_res x with SOk => [ibytes (s_item x)] | _ => [] end)) c) as H.
     specialize (H ltac:(intros bd0 bu it Hit; pose proof (sent_spec_cases c bd0 bu it Hit) as Ht;
-                        destruct (base_send c bd0 bu it) as [[[? ?] atts] res]; intros Hc; destruct (Ht Hc) as [A B];
+                        destruct (base_send c bd0 bu it) as [[[? ?] atts] res]; destruct Ht as [A B];
                         unfold s_res, s_item; cbn [fst snd];
                         destruct res;
                         [rewrite (A eq_refl); unfold acceptable, Base.deliver; cbn [filter];
@@ -1030,10 +1046,10 @@ Section Proofs.
                          |apply N.ltb_ge in E; assert (E2 : (len (ibytes it) <=? rmax) = true) by (apply N.leb_le; lia);
                           rewrite E2; destruct (decode (ibytes it)); reflexivity]
                         |destruct (B ltac:(discriminate)) as [->|[->| ->]]; reflexivity..]) its bd Hh).
-    unfold outside_known_class in Hk. revert H Hk. generalize (send_all c bd its) as l.
-    induction l as [|x l IH]; intros H Hk; [reflexivity|].
-    inversion H as [|? ? Hx Hl]; subst. inversion Hk as [|? ? Kx Kl]; subst.
-    cbn [flat_map sent_ok]. rewrite oks_app, filter_app. f_equal; [now apply Hx|now apply IH].
+    revert H. generalize (send_all c bd its) as l.
+    induction l as [|x l IH]; intros H; [reflexivity|].
+    inversion H as [|? ? Hx Hl]; subst.
+    cbn [flat_map sent_ok]. rewrite oks_app, filter_app. f_equal; [exact Hx|now apply IH].
   Qed.
 
   (** every result is attributable to one send: a send contributes at most one result -- its value if it
@@ -1046,13 +1062,13 @@ Section Proofs.
     ((o = [RErrSize] \/ o = [RErrDeser]) /\ (s_res x <> SOk \/ acceptable decode rmax b = false)).
 
   Theorem base_attribution c its bd :
-    Forall honest (map fst its) -> outside_known_class (send_all c bd its) ->
+    Forall honest (map fst its) ->
     Forall attributed (send_all c bd its).
   Proof.
-    intros Hh Hk.
-    pose proof (send_all_forall (fun x => cut_complete decode (s_atts x) = false -> attributed x) c) as H.
-    specialize (H ltac:(intros bd0 bu it Hit; pose proof (sent_spec_cases c bd0 bu it Hit) as Ht;
-                        destruct (base_send c bd0 bu it) as [[[? ?] atts] res]; intros Hc; destruct (Ht Hc) as [A B];
+    intros Hh.
+    apply send_all_forall; auto.
+    refine (ltac:(intros bd0 bu it Hit; pose proof (sent_spec_cases c bd0 bu it Hit) as Ht;
+                        destruct (base_send c bd0 bu it) as [[[? ?] atts] res]; destruct Ht as [A B];
                         unfold attributed, s_res, s_item; cbn [fst snd];
                         destruct res;
                         [rewrite (A eq_refl); unfold acceptable, Base.deliver;
@@ -1062,8 +1078,7 @@ Section Proofs.
                          |apply N.ltb_ge in E; assert (E2 : (len (ibytes it) <=? rmax) = true) by (apply N.leb_le; lia);
                           rewrite E2; destruct (decode (ibytes it)); [left; auto|right; right; auto..]]
                         |destruct (B ltac:(discriminate)) as [->|[->| ->]];
-                         [right; left; reflexivity|right; right; split; [auto|left; discriminate]..]..]) its bd Hh).
-    unfold outside_known_class in Hk. rewrite Forall_forall in *. intros x Hx. apply (H x Hx). apply (Hk x Hx).
+                         [right; left; reflexivity|right; right; split; [auto|left; discriminate]..]..])).
   Qed.
 
   (** whatever part of the schedule has happened, its results are a prefix of the final ones: values are
